@@ -78,7 +78,7 @@ ASSUMPTIONS = [
     'categories are listed in diaginfo.dat and every offset+tracer id has a '
     'tracerinfo.dat row (files without table rows are outside the statement)',
 ]
-BUDGET = {'quick': dict(examples=1600, max_s=240),
+BUDGET = {'quick': dict(examples=2400, max_s=240),
           'thorough': dict(examples=40000, max_s=3000)}
 
 CATS = ['IJ-AVG-$', 'IJ-24H-$', 'INST-MAP', 'ANTHSRCE', 'BIOFSRCE',
